@@ -114,7 +114,7 @@ pub fn run_mode(seed: u64, n: usize, sink: &mut Sink, mode: Mode) {
     let mut t = 0usize;
     while made < n {
         let malformed = t % 8 == 7;
-        let rt = gen_route(&mut r, &RouteOpts { max_links: 6, geom: false, malformed });
+        let rt = gen_route(&mut r, &RouteOpts { max_links: 6, geom: false, malformed, plain_speeds: false });
         let whole_parts = vec![rt.path.clone()];
         let whole = run_path(&rt.net, &rt.tp, &whole_parts, false).ok().map(|p| speed_pts(&p));
         let kind = if malformed { "profile_malformed" } else { "profile" };
